@@ -4,7 +4,11 @@
 //	recvGuardNonIface, rcvrCond   the receiver-offset rule
 //	variadicSub            variadic = funcType.NumIn() - k
 //	argType* / defType*    comparison and `.Elem()` of the type chosen for argument i (constant conversion / wrapper target)
-//	callOnEllipsis / callOtherwise / deferCall   Call versus CallSlice
+//	callArms / fvArms      Call versus CallSlice versus the helper callVariadic: the guarded choices of callBin's callFn and of
+//	                       the function-value branch of call, in order of precedence; cv*: the shape of callVariadic itself
+//	deferCall / deferWrap* how runDeferred calls a deferred record and whether the defer arms of callBin / call wrap the
+//	                       function with deferCallSlice when the call has an ellipsis (what the deferred record holds)
+//	wrapRecvAtCreation     genFunctionWrapper reads the method receiver outside the reflect.MakeFunc literal
 //	assign* / return* / default* / nestedReadIdx   index expressions of the result stores per context
 //	wrap* / getFunc*       shape of genFunctionWrapper / getFunc: frame allocation, argument base, `fr.data[lo:hi]`
 //
@@ -261,6 +265,12 @@ func typeChoice(root ast.Node, lhs string) (cmp string, elem string) {
 }
 
 func callKind(e ast.Node) string {
+	if id, ok := e.(*ast.Ident); ok && id.Name == "callVariadic" {
+		return ".callVariadic"
+	}
+	if find(e, func(n ast.Node) bool { ce, ok := n.(*ast.CallExpr); return ok && str(ce.Fun) == "callVariadic" }) != nil {
+		return ".callVariadic"
+	}
 	if find(e, func(n ast.Node) bool { ce, ok := n.(*ast.CallExpr); return ok && strings.HasSuffix(str(ce.Fun), ".CallSlice") }) != nil {
 		return ".callSlice"
 	}
@@ -268,6 +278,85 @@ func callKind(e ast.Node) string {
 		return ".call"
 	}
 	return ".unrecognised"
+}
+
+// guardedCalls: the assignments `lhs = …` of fd together with the guard each stands under (an `if`/`else` or the clauses of a
+// tagless `switch`), in order of precedence.
+func guardedCalls(fd *ast.FuncDecl, lhs, where string) []string {
+	guardName := func(e ast.Expr) string {
+		switch str(e) {
+		case "n.action == aCallSlice", "hasVariadicArgs":
+			return ".ellipsis"
+		case "variadic >= 0":
+			return ".variadic"
+		}
+		note("%s: guard of `%s = …`: %s", where, lhs, str(e))
+		return ".unrecognised"
+	}
+	isAssign := func(n ast.Node) (ast.Expr, bool) {
+		as, ok := n.(*ast.AssignStmt)
+		if ok && as.Tok == token.ASSIGN && len(as.Lhs) == 1 && str(as.Lhs[0]) == lhs {
+			return as.Rhs[0], true
+		}
+		return nil, false
+	}
+	assignIn := func(list []ast.Stmt) ast.Expr {
+		for _, s := range list {
+			if rhs, ok := isAssign(s); ok {
+				return rhs
+			}
+		}
+		return nil
+	}
+	total := len(findAll(fd, func(n ast.Node) bool { _, ok := isAssign(n); return ok }))
+	var arms []string
+	ast.Inspect(fd, func(n ast.Node) bool {
+		switch x := n.(type) {
+		case *ast.IfStmt:
+			if rhs := assignIn(x.Body.List); rhs != nil {
+				arms = append(arms, "⟨"+guardName(x.Cond)+", "+callKind(rhs)+"⟩")
+				if eb, ok := x.Else.(*ast.BlockStmt); ok {
+					if rhs := assignIn(eb.List); rhs != nil {
+						arms = append(arms, "⟨.always, "+callKind(rhs)+"⟩")
+					}
+				}
+			}
+		case *ast.SwitchStmt:
+			if x.Tag != nil {
+				return true
+			}
+			deflt := ""
+			for _, s := range x.Body.List {
+				cc := s.(*ast.CaseClause)
+				rhs := assignIn(cc.Body)
+				if rhs == nil {
+					continue
+				}
+				switch {
+				case cc.List == nil:
+					deflt = "⟨.always, " + callKind(rhs) + "⟩"
+				case len(cc.List) == 1:
+					arms = append(arms, "⟨"+guardName(cc.List[0])+", "+callKind(rhs)+"⟩")
+				default:
+					note("%s: `%s = …` under a clause with %d guards", where, lhs, len(cc.List))
+					arms = append(arms, "⟨.unrecognised, "+callKind(rhs)+"⟩")
+				}
+			}
+			if deflt != "" {
+				arms = append(arms, deflt)
+			}
+		}
+		return true
+	})
+	if len(arms) != total {
+		note("%s: %d assignments `%s = …`, %d recognised", where, total, lhs, len(arms))
+	}
+	for _, a := range arms {
+		if strings.Contains(a, ".unrecognised⟩") {
+			note("%s: call kind of an arm of `%s` not recognised", where, lhs)
+		}
+	}
+	return arms
 }
 
 func sliceBounds(e ast.Expr, names map[string]string) (lo string, hi string) {
@@ -415,20 +504,76 @@ func main() {
 			note("variadic index assignment not recognised")
 		}
 
-		// ---- Call / CallSlice
-		callOther, callEll := ".unrecognised", ".unrecognised"
+		// ---- Call / CallSlice / callVariadic
+		// callBin: `callFn := <default>` followed by an `if` or a tagless `switch` that overrides it
+		callArms := guardedCalls(cb, "callFn", "callBin")
 		if n := find(cb, func(n ast.Node) bool {
 			as, ok := n.(*ast.AssignStmt)
 			return ok && as.Tok == token.DEFINE && len(as.Lhs) == 1 && str(as.Lhs[0]) == "callFn"
 		}); n != nil {
-			callOther = callKind(n)
+			callArms = append(callArms, "⟨.always, "+callKind(n.(*ast.AssignStmt).Rhs[0])+"⟩")
+		} else {
+			note("callBin: no `callFn :=`")
 		}
-		if n := find(cb, func(n ast.Node) bool {
-			is, ok := n.(*ast.IfStmt)
-			return ok && str(is.Cond) == "n.action == aCallSlice"
-		}); n != nil {
-			callEll = callKind(n)
+		// call, function-value branch: `callf = …` under `if hasVariadicArgs {} else {}` or a tagless switch
+		cl := common.FindFunc(f, "", "call")
+		var fvArms []string
+		if cl == nil {
+			note("call not found")
+		} else {
+			if find(cl, func(n ast.Node) bool { return str(n) == "hasVariadicArgs := n.action == aCallSlice" }) == nil {
+				note("call: hasVariadicArgs is not `n.action == aCallSlice`")
+			}
+			fvArms = guardedCalls(cl, "callf", "call")
 		}
+		// the helper callVariadic
+		cvGuard, cvCmp, cvSub, cvThen, cvZero, cvElse := "false", ".unrecognised", "1000000", ".unrecognised", "false", ".unrecognised"
+		if cv := common.FindFunc(f, "", "callVariadic"); cv != nil {
+			ok := false
+			if len(cv.Body.List) == 2 {
+				is, ok1 := cv.Body.List[0].(*ast.IfStmt)
+				rt, ok2 := cv.Body.List[1].(*ast.ReturnStmt)
+				if ok1 && ok2 && is.Else == nil && str(is.Init) == "t := v.Type()" && len(is.Body.List) == 1 && len(rt.Results) == 1 {
+					cond := unparen(is.Cond)
+					if be, isB := cond.(*ast.BinaryExpr); isB && be.Op == token.LAND && str(be.X) == "t.IsVariadic()" {
+						cvGuard = "true"
+						cond = unparen(be.Y)
+					}
+					if be, isB := cond.(*ast.BinaryExpr); isB && str(be.X) == "len(in)" {
+						if sub, isS := be.Y.(*ast.BinaryExpr); isS && sub.Op == token.SUB && str(sub.X) == "t.NumIn()" {
+							if bl, isL := sub.Y.(*ast.BasicLit); isL && bl.Kind == token.INT {
+								cvCmp, cvSub = cmpOf(be.Op), bl.Value
+							}
+						} else if str(be.Y) == "t.NumIn()" {
+							cvCmp, cvSub = cmpOf(be.Op), "0"
+						}
+					}
+					if r, isR := is.Body.List[0].(*ast.ReturnStmt); isR && len(r.Results) == 1 {
+						switch nospace(str(r.Results[0])) {
+						case "v.CallSlice(append(in,reflect.Zero(t.In(len(in)))))":
+							cvThen, cvZero = ".callSlice", "true"
+						case "v.CallSlice(in)":
+							cvThen = ".callSlice"
+						case "v.Call(in)":
+							cvThen = ".call"
+						}
+					}
+					switch nospace(str(rt.Results[0])) {
+					case "v.Call(in)":
+						cvElse = ".call"
+					case "v.CallSlice(in)":
+						cvElse = ".callSlice"
+					}
+					ok = cvCmp != ".unrecognised" && cvThen != ".unrecognised" && cvElse != ".unrecognised"
+				}
+			}
+			if !ok {
+				note("callVariadic: shape not recognised")
+			}
+		} else if strings.Contains(strings.Join(callArms, "")+strings.Join(fvArms, ""), "callVariadic") {
+			note("callVariadic is used but not declared in interp/run.go")
+		}
+		// deferred calls: how the record is called …
 		deferCall := ".unrecognised"
 		if n := find(rc, func(n ast.Node) bool {
 			r, ok := n.(*ast.RangeStmt)
@@ -441,14 +586,85 @@ func main() {
 				return ok && str(ce.Fun) == "runDeferred"
 			}) != nil {
 				if rd := common.FindFunc(f, "", "runDeferred"); rd != nil {
-					deferCall = callKind(rd)
+					// the call proper is the last statement: callVariadic(val[0], val[1:]) / val[0].Call(val[1:])
+					if l := rd.Body.List; len(l) > 0 {
+						switch nospace(str(l[len(l)-1])) {
+						case "callVariadic(val[0],val[1:])":
+							deferCall = ".callVariadic"
+						case "val[0].Call(val[1:])":
+							deferCall = ".call"
+						case "val[0].CallSlice(val[1:])":
+							deferCall = ".callSlice"
+						}
+					}
 				}
 			}
 		}
-		for what, v := range map[string]string{"callFn": callOther, "callFn on aCallSlice": callEll, "deferred call": deferCall} {
-			if v == ".unrecognised" {
-				note("%s not recognised", what)
+		if deferCall == ".unrecognised" {
+			note("deferred call not recognised")
+		}
+		// … and what the defer arms put into it: `if <ellipsis> { val[0] = deferCallSlice(val[0]) }`
+		deferWrap := func(fd *ast.FuncDecl, cond string) string {
+			if fd == nil {
+				return "false"
 			}
+			var hits []ast.Node
+			for _, n := range findAll(fd, func(n ast.Node) bool { return nospace(str(n)) == "val[0]=deferCallSlice(val[0])" }) {
+				if _, ok := n.(*ast.AssignStmt); ok {
+					hits = append(hits, n)
+				}
+			}
+			if len(hits) == 0 {
+				return "false"
+			}
+			guarded := findAll(fd, func(n ast.Node) bool {
+				is, ok := n.(*ast.IfStmt)
+				return ok && is.Init == nil && is.Else == nil && str(is.Cond) == cond && len(is.Body.List) == 1 &&
+					nospace(str(is.Body.List[0])) == "val[0]=deferCallSlice(val[0])"
+			})
+			if len(hits) != 1 || len(guarded) != 1 {
+				note("%s: %d deferCallSlice wrappings, %d under `if %s`", fd.Name.Name, len(hits), len(guarded), cond)
+				return "false"
+			}
+			// it has to follow `val[0] = value(f)` in the same block (the defer arm)
+			return "true"
+		}
+		deferWrapBin := deferWrap(cb, "n.action == aCallSlice")
+		deferWrapCall := deferWrap(cl, "hasVariadicArgs")
+		deferWrapKind, deferWrapVariadic := ".unrecognised", "false"
+		if dc := common.FindFunc(f, "", "deferCallSlice"); dc != nil {
+			if mk := find(dc, func(n ast.Node) bool {
+				ce, ok := n.(*ast.CallExpr)
+				return ok && str(ce.Fun) == "reflect.MakeFunc" && len(ce.Args) == 2
+			}); mk != nil {
+				ce := mk.(*ast.CallExpr)
+				if fo, ok := ce.Args[0].(*ast.CallExpr); ok && str(fo.Fun) == "reflect.FuncOf" && len(fo.Args) == 3 &&
+					str(fo.Args[0]) == "in" && str(fo.Args[1]) == "out" {
+					switch str(fo.Args[2]) {
+					case "false":
+						deferWrapVariadic = "false"
+					case "true", "t.IsVariadic()":
+						deferWrapVariadic = "true"
+					default:
+						note("deferCallSlice: variadic flag %s", str(fo.Args[2]))
+					}
+				} else {
+					note("deferCallSlice: type of the wrapper: %s", str(ce.Args[0]))
+				}
+				if lit, ok := ce.Args[1].(*ast.FuncLit); ok && len(lit.Body.List) == 1 {
+					switch nospace(str(lit.Body.List[0])) {
+					case "returnfn.CallSlice(args)":
+						deferWrapKind = ".callSlice"
+					case "returnfn.Call(args)":
+						deferWrapKind = ".call"
+					}
+				}
+			}
+			if deferWrapKind == ".unrecognised" {
+				note("deferCallSlice: shape not recognised")
+			}
+		} else if deferWrapBin == "true" || deferWrapCall == "true" {
+			note("deferCallSlice is used but not declared in interp/run.go")
 		}
 
 		// ---- result routing
@@ -592,6 +808,27 @@ func main() {
 		}
 		wrapPerCall := perCall(gw, "fr := newFrame(f, len(def.types), f.runid())")
 		getFuncPerCall := perCall(gf, "fr2 := newFrame(fr, len(n.types), fr.runid())")
+		// the method receiver is read (`rcvr(f)`) when the wrapper is made, outside the literal given to reflect.MakeFunc, and the
+		// literal stores that value (`d[numRet].Set(recv)`)
+		recvAtCreation := "false"
+		if mk := find(gw, func(n ast.Node) bool {
+			ce, ok := n.(*ast.CallExpr)
+			return ok && str(ce.Fun) == "reflect.MakeFunc" && len(ce.Args) == 2
+		}); mk != nil {
+			if lit, ok := mk.(*ast.CallExpr).Args[1].(*ast.FuncLit); ok {
+				isRcvr := func(n ast.Node) bool { ce, ok := n.(*ast.CallExpr); return ok && str(ce.Fun) == "rcvr" }
+				all, in := findAll(gw, isRcvr), findAll(lit, isRcvr)
+				stored := find(lit, func(n ast.Node) bool { return nospace(str(n)) == "d[numRet].Set(recv)" }) != nil
+				switch {
+				case len(all) == 1 && len(in) == 0 && stored:
+					recvAtCreation = "true"
+				case len(all) == 1 && len(in) == 1:
+					recvAtCreation = "false"
+				default:
+					note("genFunctionWrapper: %d reads of the receiver (%d inside the MakeFunc literal), stored: %v", len(all), len(in), stored)
+				}
+			}
+		}
 		skipShort := leanBool(find(gw, func(n ast.Node) bool {
 			is, ok := n.(*ast.IfStmt)
 			return ok && str(is.Cond) == "i >= len(d)" && len(is.Body.List) == 1 && str(is.Body.List[0]) == "break"
@@ -618,7 +855,8 @@ func main() {
 
 		// ---- fingerprints
 		hashes := common.HashTable(fset, f, [][2]string{{"", "callBin"}, {"", "genFunctionWrapper"}, {"", "getFunc"}, {"", "call"},
-			{"", "genInterfaceWrapper"}, {"", "methodByName"}, {"", "getFrame"}})
+			{"", "genInterfaceWrapper"}, {"", "methodByName"}, {"", "getFrame"}, {"", "callVariadic"}, {"", "deferCallSlice"}, {"", "runDeferred"},
+			{"", "copyDeferArg"}})
 		hashes = strings.TrimSuffix(hashes, "]")
 		for _, file := range []struct {
 			rel   string
@@ -662,9 +900,19 @@ def facts : Facts :=
     argTypeElem := %s,
     defTypeCmp := %s,
     defTypeElem := %s,
-    callOnEllipsis := %s,
-    callOtherwise := %s,
+    callArms := %s,
+    fvArms := %s,
+    cvGuardVariadic := %s,
+    cvCmp := %s,
+    cvSub := %s,
+    cvThen := %s,
+    cvAppendZero := %s,
+    cvElse := %s,
     deferCall := %s,
+    deferWrapBin := %s,
+    deferWrapCall := %s,
+    deferWrapKind := %s,
+    deferWrapVariadic := %s,
     assignSrcIdx := %s,
     assignDstIdx := %s,
     returnDstIdx := %s,
@@ -673,6 +921,7 @@ def facts : Facts :=
     nestedReadIdx := %s,
     wrapFrameIsDefTypes := %s,
     wrapFramePerCall := %s,
+    wrapRecvAtCreation := %s,
     getFuncFramePerCall := %s,
     wrapArgBase := %s,
     wrapRcvrShift := %s,
@@ -688,8 +937,9 @@ def sourceHashes : List (String × String) :=
   %s
 end YaegiVerif.Generated.C07
 `, arms, common.LeanStrList(outerArms), recvGuard, rcvrCond, lo(variadicSub), argCmp, argElem, defCmp, defElem,
-			callEll, callOther, deferCall, assignSrc, assignDst, retDst, retBase, defDst, nestedRead,
-			wrapFrame, wrapPerCall, getFuncPerCall, wrapBase, lo(wrapShift), lo(wLo), wHi, skipShort, lo(gLo), gHi, common.LeanStrList(notes), hashes)
+			"["+strings.Join(callArms, ", ")+"]", "["+strings.Join(fvArms, ", ")+"]", cvGuard, cvCmp, lo(cvSub), cvThen, cvZero, cvElse,
+			deferCall, deferWrapBin, deferWrapCall, deferWrapKind, deferWrapVariadic, assignSrc, assignDst, retDst, retBase, defDst, nestedRead,
+			wrapFrame, wrapPerCall, recvAtCreation, getFuncPerCall, wrapBase, lo(wrapShift), lo(wLo), wHi, skipShort, lo(gLo), gHi, common.LeanStrList(notes), hashes)
 		return src, nil
 	})
 }
